@@ -67,7 +67,7 @@ func (d *vfDataWithEOF) Read(p []byte) (int, error) {
 	return n + n2, err2
 }
 
-var vfC05DataWithEOF int64
+var vfC05DataWithEOF, vfC05Oversize int64
 
 func vfGenInbound(r *rand.Rand, n int, ns string, allowSMAnswer bool, tag string) []vfInElem {
 	var out []vfInElem
@@ -90,6 +90,10 @@ func vfGenInbound(r *rand.Rand, n int, ns string, allowSMAnswer bool, tag string
 				ext = `<request xmlns="urn:xmpp:receipts"/>`
 			case 1:
 				ext = `<wrap xmlns="urn:vf:unknown"><message xmlns="jabber:client" id="nested"><body>in</body></message><d1><d2><d3><body>deep</body></d3></d2></d1></wrap>`
+			case 2:
+				// an unknown payload (an RSS/Atom item, say) whose element names happen to be those HTML treats as
+				// void or self-closing - with content, as XML allows
+				ext = `<item xmlns="urn:vf:feed"><link>http://example.org/a?b=1&amp;c=2</link><meta>m</meta><br>b</br><input>i</input><IMG>x</IMG><hr>h</hr><col>c</col><param>p</param><base>q</base><area>r</area><p>one<p>two</p></p></item>`
 			}
 			mk := func(body string) string {
 				return fmt.Sprintf(`<message%s id="%s" from="peer@example.org/r" type="chat"><body>%s</body>%s</message>`, xmlns, id, body, ext)
@@ -154,7 +158,7 @@ func vfC05RunClientTCP(cs *vfC05Case) vfC05Result {
 	var amu sync.Mutex
 	sentAll := make(chan struct{})
 	peer := vfNewPeer(func(pc *vfPeerConn) {
-		o := &vfNeg{SM: cs.SM, ExpectEnable: cs.SM, SMResume: "true", ExpectPresence: true, Bind: true}
+		o := &vfNeg{SM: cs.SM, ExpectEnable: cs.SM, SMResume: []string{"true", "true", "false", ""}[int(cs.Seed)%4], ExpectPresence: true, Bind: true}
 		if _, err := pc.Negotiate(o); err != nil {
 			res.peerErr = err
 			close(sentAll)
@@ -499,6 +503,24 @@ func vfC05RunClientWS(cs *vfC05Case) vfC05Result {
 			w.Close() // the connection is lost right after the burst: what was completely received must still be routed
 			return
 		}
+		nReq := 0
+		for _, e := range cs.Elems {
+			if e.Kind == "r" {
+				nReq++
+			}
+		}
+		answered := func() bool {
+			amu.Lock()
+			defer amu.Unlock()
+			return nAns >= nReq
+		}
+		if cs.Seed%3 == 0 && vfWaitUntil(5*time.Second, answered) {
+			// behind everything that is judged (the answers to all acknowledgement requests are in): one message larger
+			// than the transport's per-message limit. The client may refuse it (and with it the connection) - what it
+			// must not do is crash.
+			w.Send(`<message xmlns="jabber:client" id="OVERSIZE" from="peer@example.org"><body>` + strings.Repeat("0123456789abcdef", []int{2100, 2600, 6500}[int(cs.Seed/3)%3]) + `</body></message>`)
+			atomic.AddInt64(&vfC05Oversize, 1)
+		}
 		<-rdone
 	})
 	defer peer.Stop()
@@ -678,7 +700,10 @@ func TestVf_C05(t *testing.T) {
 		"randomly segmented, for Client over TCP (ending with sentinel / FIN / RST; gate cases prove concurrent routing), Component over TCP (order asserted) and Client over WebSocket (one stanza per message, several per message, fragmented frames); "+
 		"oracle: multiset of routed ids == sent, <a/> count == <r/> count; non-trivial = case with >=1 stanza fully accounted for, distinct by (mode, seed, handler-entry order)")
 	defer run.Close()
-	defer func() { run.Count("reads_returning_data_together_with_the_end", atomic.LoadInt64(&vfC05DataWithEOF)) }()
+	defer func() {
+		run.Count("reads_returning_data_together_with_the_end", atomic.LoadInt64(&vfC05DataWithEOF))
+		run.Count("oversized_websocket_messages_survived", atomic.LoadInt64(&vfC05Oversize))
+	}()
 	var rc vfC05Case
 	if run.ReplayCase(&rc) {
 		for i := 0; i < 5; i++ {
